@@ -37,7 +37,13 @@ Inductive kind :=
 | KHeaderOnly | KHello | KHelloElemBitmap | KSwitchConfig | KFlowMod | KGroupMod | KPacketOut
 | KPortMod | KMultipartReq | KFlowStatsReq | KAggStatsReq | KPortStatsReq | KQueueStatsReq
 | KVendor | KControllerID | KTlvTableMod | KTlvMap | KBundleCtrl | KBundleAdd | KBundleProp
-(* opaque bytes (packet-out payload, NAT range parts) *)
+(* switch-originated messages and their parts *)
+| KError | KVendorError | KFeatures | KPhyPort | KPacketIn | KPad2 | KFlowRemoved | KPortStatus
+| KMultipartReply | KDescStats | KFlowStats | KAggStats | KTableStats | KPortStats | KQueueStats
+| KTlvTableReply
+(* packet headers (package protocol) *)
+| KEth | KVlan | KU16 | KArp | KIp4 | KIp6 | KHbh | KRouting | KFragment | KIcmp | KUdp | KTcp
+(* opaque bytes (packet-out payload, NAT range parts, unknown payloads) *)
 | KRaw.
 
 Inductive tree := T (k : kind) (vs : list val) (kids : list tree).
@@ -104,6 +110,34 @@ Definition layout (k : kind) : list fld :=
   | KBundleCtrl => [FU 4; FU 2; FU 2]
   | KBundleAdd => [FU 4; FZ 2; FU 2]
   | KBundleProp => [FU 2; FU 2; FU 4; FU 4; FV]
+  | KError => ofhdr ++ [FU 2; FU 2; FV]
+  | KVendorError => ofhdr ++ [FU 2; FU 2; FU 4; FV]
+  | KFeatures => ofhdr ++ [FB 8; FU 4; FU 1; FU 1; FZ 2; FU 4; FU 4]
+  | KPhyPort => [FU 4; FZ 4; FB 6; FZ 2; FB 16; FU 4; FU 4; FU 4; FU 4; FU 4; FU 4; FU 4; FU 4]
+  | KPacketIn => ofhdr ++ [FU 4; FU 2; FU 1; FU 1; FU 8]
+  | KPad2 => [FZ 2]
+  | KFlowRemoved => ofhdr ++ [FU 8; FU 2; FU 1; FU 1; FU 4; FU 4; FU 2; FU 2; FU 8; FU 8]
+  | KPortStatus => ofhdr ++ [FU 1; FZ 7]
+  | KMultipartReply => ofhdr ++ [FU 2; FU 2; FZ 4]
+  | KDescStats => [FB 256; FB 256; FB 256; FB 32; FB 256]
+  | KFlowStats => [FU 2; FU 1; FU 1; FU 4; FU 4; FU 2; FU 2; FU 2; FU 2; FZ 4; FU 8; FU 8; FU 8]
+  | KAggStats => [FU 8; FU 8; FU 4; FZ 4]
+  | KTableStats => [FU 1; FZ 3; FB 32; FU 4; FU 4; FU 4; FU 8; FU 8]
+  | KPortStats => [FU 2; FZ 6; FU 8; FU 8; FU 8; FU 8; FU 8; FU 8; FU 8; FU 8; FU 8; FU 8; FU 8; FU 8]
+  | KQueueStats => [FU 2; FZ 2; FU 4; FU 8; FU 8; FU 8]
+  | KTlvTableReply => [FU 4; FU 2; FZ 10]
+  | KEth => [FB 6; FB 6]
+  | KVlan => [FU 2; FU 2]
+  | KU16 => [FU 2]
+  | KArp => [FU 2; FU 2; FU 1; FU 1; FU 2; FV; FV; FV; FV]
+  | KIp4 => [FU 1; FU 1; FU 2; FU 2; FU 2; FU 1; FU 1; FU 2; FB 4; FB 4; FV]
+  | KIp6 => [FU 4; FU 2; FU 1; FU 1; FB 16; FB 16]
+  | KHbh => [FU 1; FU 1; FV]
+  | KRouting => [FU 1; FU 1; FU 1; FU 1; FV]
+  | KFragment => [FU 1; FU 1; FU 2; FU 4]
+  | KIcmp => [FU 1; FU 1; FU 2; FV]
+  | KUdp => [FU 2; FU 2; FU 2; FU 2; FV]
+  | KTcp => [FU 2; FU 2; FU 4; FU 4; FU 1; FU 1; FU 2; FU 2; FU 2; FV]
   | KRaw => [FV]
   end.
 
